@@ -121,6 +121,9 @@ def exec_loop_paths(interp, s, frame, state):
     try:
         with use_state(state):
             _symbolic_for(interp, s, frame, state, space)
+    except Fork as f:
+        # the zero-trip test (hi > lo) is not decided by the path condition: split on it (taken before any effect)
+        return interp._split(f, fr0, st0, lambda fr, st: exec_loop_paths(interp, s, fr, st), 0)
     except PyRaise as e:
         return [(frame, state, ("raise", e.exc_type, e.msg))]
     return [(frame, state, ("normal",))]
